@@ -22,7 +22,7 @@ _HOT_FUNCS = {"__array_finalize__", "__new__", "_wrap_result", "Array", "zip", "
 
 
 def scan():
-    sites = {"with": [], "store": [], "flag": [], "func": []}
+    sites = {"with": [], "store": [], "flag": [], "func": [], "mut": []}
     dispatch_with = []  # (relpath, first body line, last body line)
     for root, dirs, files in os.walk(env.VECTOR_DIR):
         dirs.sort()
@@ -38,6 +38,21 @@ def scan():
             except SyntaxError:
                 continue
             classnames = {n.name for n in ast.walk(tree) if isinstance(n, ast.ClassDef)}
+            # candidate operand mutations: stores through an attribute / subscript, augmented assignment to a parameter
+            for fnode in ast.walk(tree):
+                if not isinstance(fnode, ast.FunctionDef):
+                    continue
+                params = {a.arg for a in fnode.args.args + fnode.args.kwonlyargs}
+                if fnode.args.vararg:
+                    params.add(fnode.args.vararg.arg)
+                for node in ast.walk(fnode):
+                    if isinstance(node, ast.AugAssign):
+                        t = node.target
+                        if (isinstance(t, ast.Name) and t.id in params) or isinstance(t, (ast.Attribute, ast.Subscript)):
+                            sites["mut"].append(f"{rel}:{node.lineno}")
+                    elif isinstance(node, ast.Assign):
+                        if any(isinstance(t, (ast.Attribute, ast.Subscript)) for t in node.targets):
+                            sites["mut"].append(f"{rel}:{node.lineno}")
             for node in ast.walk(tree):
                 if isinstance(node, ast.With):
                     lines = set()
